@@ -9,9 +9,11 @@ git checkout -q -- . ; rm -f tests/demo_mut*.rs
 [ -f $OUT/mut$N.diff ] || { echo "no $OUT/mut$N.diff"; exit 2; }
 # restrict patch to src/
 if grep -E '^\+\+\+ b/' $OUT/mut$N.diff | grep -v '^+++ b/src/' ; then echo "patch touches files outside src/"; exit 1; fi
+FEAT=""; if grep -q "serde" $OUT/demo_mut$N.rs; then FEAT="--features serde"; fi
+if [ -z "${NOREL:-}" ] && grep -q -- "--release" $OUT/mut$N.txt; then FEAT="$FEAT --release"; fi
 cp $OUT/demo_mut$N.rs tests/demo_mut$N.rs
 echo "== clean tree: demo must pass"
-if ! cargo test --offline --test demo_mut$N > /tmp/mut/$PID/clean_demo.log 2>&1; then echo "FAIL: demo does not pass on the clean tree"; tail -20 /tmp/mut/$PID/clean_demo.log; rm -f tests/demo_mut$N.rs; exit 1; fi
+if ! cargo test --offline $FEAT --test demo_mut$N > /tmp/mut/$PID/clean_demo.log 2>&1; then echo "FAIL: demo does not pass on the clean tree"; tail -20 /tmp/mut/$PID/clean_demo.log; rm -f tests/demo_mut$N.rs; exit 1; fi
 rm -f tests/demo_mut$N.rs
 git apply $OUT/mut$N.diff || { echo "FAIL: patch does not apply"; exit 1; }
 echo "== mutated tree: existing suite must pass"
@@ -22,7 +24,7 @@ FAILED=$(grep -E "^test result:" /tmp/mut/$PID/suite.log | awk '{s+=$6} END {pri
 echo "suite exit=$SUITE passed=$PASSED failed=$FAILED"
 cp $OUT/demo_mut$N.rs tests/demo_mut$N.rs
 echo "== mutated tree: demo must fail"
-cargo test --offline --test demo_mut$N > /tmp/mut/$PID/mut_demo.log 2>&1
+cargo test --offline $FEAT --test demo_mut$N > /tmp/mut/$PID/mut_demo.log 2>&1
 DEMO=$?
 rm -f tests/demo_mut$N.rs
 git checkout -q -- .
